@@ -542,7 +542,7 @@ func (t *Term) ref() string {
 			return fmt.Sprintf("#x%0*x", w/4, t.cval)
 		}
 	case "var":
-		return "|" + t.name + "|"
+		return "|in." + t.name + "|"
 	}
 	return "t" + strconv.Itoa(t.id)
 }
